@@ -286,6 +286,25 @@ func execRun(bin, prop string, seed uint64, tier string, replay string, gmp int,
 		return nil, fmt.Errorf("bad RESULT line: %v: %s", e, tail(line, 500))
 	}
 	r.raw = s[:i]
+	if strings.HasSuffix(bin, "sim.race.test") && strings.Contains(s, "WARNING: DATA RACE") {
+		sigs, details, _ := parseRaces(s)
+		known := map[string]bool{}
+		for _, f := range loadFindings() {
+			if f.Property == prop && f.Status == "known" {
+				known[f.Signature] = true
+			}
+		}
+		for k, sg := range sigs {
+			full := prop + "/" + sg
+			if known[full] {
+				r.Known = append(r.Known, full)
+				continue
+			}
+			if r.Verdict == "ok" || r.Verdict == "inconclusive" {
+				r.Verdict, r.Sig, r.Detail = "violation", full, "the race detector reported:\n"+details[k]
+			}
+		}
+	}
 	return &r, nil
 }
 
@@ -427,7 +446,11 @@ func check(id, tier string) int {
 				next++
 				nmu.Unlock()
 				seed := mix(base, uint64(i))
-				r, err := execRun(bin, id, seed, tier, "", gmpFor(seed), "-index", strconv.Itoa(i))
+				extra := []string{"-index", strconv.Itoa(i)}
+				if pc.Race {
+					extra = append(extra, "-tapes") // race reports are found in the output: keep the tapes for replay
+				}
+				r, err := execRun(bin, id, seed, tier, "", gmpFor(seed), extra...)
 				a.mu.Lock()
 				a.evals++
 				if err != nil {
